@@ -152,7 +152,7 @@ def check(chk: Check) -> None:
         for physical in (1, 2):
             flat_lt = 1 if physical == 1 else 2
             for logical in (flat_lt, None):
-                for fs in (1, 3, 6, 250):
+                for fs in ((1, 2, 3, 4, 5, 6, 7, 8, 9, 12, 250) if chk.tier == "thorough" else (1, 3, 6, 250)):
                     jobs.append(dict(name=name, integ=integ, kind=kind, physical=physical, frame_size=fs, logical=logical))
             if kind == "stream_frames":
                 for fs in (1, 3, 6):
@@ -191,7 +191,7 @@ def check(chk: Check) -> None:
     # file entry points: the caller's sink is where frames are handed over
     re_ = "C11.PATH.sink-handover"
     chk.rule(re_, "flat_stream_to_file: whenever the input is asked for the next statement, every statement consumed so far is either pending in the flow or already written to the caller's sink (nothing is parked in a private buffer)", floor=30)
-    fjobs = [dict(integ=integ, physical=physical, frame_size=fs, pyclass=pyc, sink=sname) for integ in ("generic", "rdflib") for physical in (1, 2) for fs in (1, 3) for sname, pyc in SINKS]
+    fjobs = [dict(integ=integ, physical=physical, frame_size=fs, pyclass=pyc, sink=sname) for integ in ("generic", "rdflib") for physical in (1, 2) for fs in ((1, 2, 3, 5, 8) if chk.tier == "thorough" else (1, 3)) for sname, pyc in SINKS]
     for res in pmap(run_file, fjobs):
         if res is None:
             continue
